@@ -1,7 +1,7 @@
 P = "JanetModel.Props.C07."
 THEOREMS = [P + t for t in [
     "resume_only_by_current_wait", "generation_monotone", "generation_strictly_increases", "registration_records_generation",
-    "stale_forever", "stale_inert", "listener_detached_on_resume", "item_not_consumed_by_absent_waiter",
+    "stale_forever", "stale_inert", "listener_detached_on_resume", "item_not_consumed_by_absent_waiter", "supervisor_event_not_consumed_by_absent_waiter",
     "sleep_not_early", "deadline_scoped", "immediate_select_give_registers_nothing", "deadline_inert_after_body_finished",
     "sleep_not_early_ieee", "cMs_ge_model", "sleep_not_early_rn", "round_nearest_exists",
     "resumed_only_by_registration_of_current_wait", "live_registration_is_of_current_epoch", "epoch_counts_resumes", "registration_made_since_previous_resume", "abandoned_stream_activity_inert", "timed_stream_wait_sources_disarm_each_other",
